@@ -1,7 +1,7 @@
 (* testscript interpreter model driver (C01, C16).  One request line -> one answer line.
 
    run  <k=v>...   -> verdict=.. fails=.. racy=.. unmod=.. change=.. tree=.. probes=.. upd=..
-   cli  <k=v>... jobs=<work>|<file>;...   -> exit=<0|1> verdicts=pass,fail:3,...
+   cli  <k=v>... jobs=<work>|<file>;...   -> exit=<0|1> verdicts=pass,fail:3,... racy=.. unmod=..
    tok  <env> <line>        -> ok <w>,<w>,... | err
    clean/base/dir <hex>, join <hex> <hex>  -> <hex>
 
@@ -107,8 +107,10 @@ let do_cli kv =
           let work = bytes_of_hex w in
           { j_work = work; j_env = (bytes_of_string "WORK", work) :: env; j_file = bytes_of_hex f }
       | _ -> failwith "bad job") (split_on ';' (get kv "jobs" "-")) in
-  Printf.sprintf "exit=%d verdicts=%s" (int_of_n (cli_exit cfg jobs))
+  let finals = List.map (fun j -> (run_file cfg j.j_work j.j_env j.j_file).r_final) jobs in
+  Printf.sprintf "exit=%d verdicts=%s racy=%s unmod=%s" (int_of_n (cli_exit cfg jobs))
     (String.concat "," (List.map show_verdict (batch_verdicts cfg jobs)))
+    (b01 (List.exists (fun s -> s.s_racy) finals)) (b01 (List.exists (fun s -> s.s_unmodelled) finals))
 
 let () = serve (function
   | "run" :: r -> do_run (kv_of_tokens r)
